@@ -81,7 +81,7 @@ func RuleClass(err error) string {
 		return "sync"
 	case has("invalid state root"):
 		return "state_root"
-	case has("context canceled"):
+	case has("context canceled", "deadline exceeded"):
 		return "cancelled"
 	case has("no active validators"):
 		return "no_active_validators"
@@ -861,6 +861,45 @@ func init() {
 		a.AggregationBits = bitlist(bits)
 		return true
 	})
+	mut("att_bits_shorter", "att", func(m *mctx) bool {
+		// aggregation bits of length 1..committee_size-1; the set bits select members who really signed and the aggregate
+		// signature is re-made for exactly those members: only the length rule can reject it
+		for i := range m.p.B.Attestations {
+			a := &m.p.B.Attestations[i]
+			cm := m.committee(&a.Data)
+			bits := bitsOf(a.AggregationBits)
+			if cm == nil || len(cm) != len(bits) || len(bits) < 2 {
+				continue
+			}
+			first := -1
+			for j, b := range bits {
+				if b {
+					first = j
+					break
+				}
+			}
+			if first < 0 || first >= len(bits)-1 {
+				continue
+			}
+			l := first + 1 + m.r.Intn(len(bits)-1-first)
+			short := bits[:l]
+			var keys []KeyNum
+			for j, b := range short {
+				if b {
+					keys = append(keys, m.c.keyOfVal(cm[j]))
+				}
+			}
+			dom, err := common.GetDomain(m.p.A, common.DOMAIN_BEACON_ATTESTER, a.Data.Target.Epoch)
+			if err != nil {
+				continue
+			}
+			a.AggregationBits = bitlist(short)
+			a.Signature = m.c.BLS.Sign(keys, common.ComputeSigningRoot(a.Data.HashTreeRoot(hFn()), dom))
+			m.note = fmt.Sprintf("len_%d_of_%d", l, len(bits))
+			return true
+		}
+		return false
+	})
 	attMut("att_bits_empty", "att", func(m *mctx, a *phase0.Attestation) bool {
 		bits := bitsOf(a.AggregationBits)
 		for i := range bits {
@@ -1004,7 +1043,18 @@ func init() {
 		if len(b.Deposits) == 0 {
 			return false
 		}
+		m.note = fmt.Sprintf("%d_of_%d", len(b.Deposits)-1, len(b.Deposits))
 		b.Deposits = b.Deposits[:len(b.Deposits)-1]
+		return true
+	})
+	mut("deposit_none", "deposit", func(m *mctx) bool {
+		// the state demands k > 0 deposits, the block carries none
+		b := m.p.B
+		if len(b.Deposits) == 0 {
+			return false
+		}
+		m.note = fmt.Sprintf("0_of_%d", len(b.Deposits))
+		b.Deposits = nil
 		return true
 	})
 	mut("deposit_unexpected", "deposit", func(m *mctx) bool {
@@ -1670,7 +1720,10 @@ func (c *Chain) CorruptStream(n int) {
 var MustHave = []string{"exit_same_twice", "exit_already_initiated", "aslash_duplicate_index_valid_signature",
 	"aslash_unsorted_valid_signature", "aslash_indices", "aslash_surround_reverse_order", "sync_sig_new_fork_version",
 	"pslash_pre_fork_headers_new_version", "exit_pre_fork_epoch_new_version", "att_pre_fork_target_new_version", "exit_too_young", "blschange_wrong_from_key",
-	"deposit_bad_proof", "payload_withdrawals", "att_out_of_inclusion_window"}
+	"deposit_bad_proof", "deposit_missing", "deposit_none", "deposit_unexpected", "payload_withdrawals", "att_out_of_inclusion_window"}
+
+// MustHavePerFork: once per fork (of the forks this chain covers, see CoverForks).
+var MustHavePerFork = []string{"att_bits_shorter"}
 
 func (c *Chain) corruptBase(hs HonestStep) (*ProposeCtx, common.BeaconState) {
 	raw, fk := c.Rec.StateRaw(hs.PreID)
@@ -1721,6 +1774,18 @@ func (c *Chain) mustHaveCorruptions(r *hx.Rng) {
 			}
 		}
 	}
+	perFork := map[string]*mutator{} // "name@fork"
+	for i := range allMutators {
+		for _, n := range MustHavePerFork {
+			if allMutators[i].name == n {
+				for f := Phase0; f <= Deneb; f++ {
+					if c.CoverForks[f] {
+						perFork[n+"@"+f.String()] = &allMutators[i]
+					}
+				}
+			}
+		}
+	}
 	order := make([]int, 0, len(c.Honest))
 	for i := range c.Honest {
 		if c.isForkStart(c.Honest[i].Blk.Slot) {
@@ -1732,14 +1797,26 @@ func (c *Chain) mustHaveCorruptions(r *hx.Rng) {
 	for i := len(c.Honest) - 1; i >= 0; i -= step {
 		order = append(order, i)
 	}
+	preAdvancedDone := false
 	for _, si := range order {
-		if len(missing) == 0 {
+		if len(missing) == 0 && len(perFork) == 0 && preAdvancedDone {
 			break
 		}
 		hs := c.Honest[si]
 		base, pre := c.corruptBase(hs)
 		if base == nil {
 			continue
+		}
+		if !preAdvancedDone && !hs.Rejected {
+			c.preAdvancedCase(hs, pre, base)
+			preAdvancedDone = true
+		}
+		for key, mu := range perFork {
+			if key[len(mu.name)+1:] == hs.Blk.Fork.String() && c.tryMutator(r, mu, base, hs, pre) {
+				delete(perFork, key)
+				c.Stats.Inc("corrupt_must_have_done")
+				c.Stats.Inc("corrupt_per_fork." + key)
+			}
 		}
 		for _, n := range MustHave {
 			mu := missing[n]
@@ -1755,6 +1832,64 @@ func (c *Chain) mustHaveCorruptions(r *hx.Rng) {
 	for n := range missing {
 		c.Stats.Inc("corrupt_must_have_missing." + n)
 	}
+	for k := range perFork {
+		c.Stats.Inc("corrupt_must_have_missing." + k)
+	}
+}
+
+// preAdvancedCase: the pre-state is first advanced with ProcessSlots to the block's own slot N (no block at N yet); the
+// otherwise fully valid block for N is then applied to THAT state. process_slots asserts state.slot < slot, so the
+// specification rejects; also ProcessSlots to the state's own slot and to an earlier one must fail.
+func (c *Chain) preAdvancedCase(hs HonestStep, pre common.BeaconState, base *ProposeCtx) {
+	adv := RunSlots(c.Spec, pre, nil, hs.Blk.Slot, -1)
+	if adv.Err != nil || adv.Panicked {
+		return
+	}
+	aid := c.Rec.State(adv.Post)
+	c.Rec.Line("slots %s %d %s", hs.PreID, hs.Blk.Slot, aid)
+	c.noteState(adv.Post)
+	for _, validate := range []bool{true, false} {
+		v := 0
+		if validate {
+			v = 1
+		}
+		res := RunTransition(c.Spec, Unwrap(adv.Post), nil, hs.Blk.Signed(), hs.Blk.Fork, validate, hs.Engine, -1, -1)
+		c.notePartial(&res)
+		rule := RuleClass(res.Err)
+		if res.Panicked {
+			rule = "panic"
+			c.problem("PANIC in zrnt on block %s presented to its own slot-advanced pre-state: %v", hs.BlkID, res.PanicVal)
+		}
+		post := res.Verdict()
+		if res.Post != nil {
+			post = c.Rec.State(res.Post)
+		}
+		line := c.Rec.Line("trans %s %s %d %s %s kind=corrupt corrupt=wrong_pre_state variant=pre_advanced_to_block_slot rule=%s", aid, hs.BlkID, v, hs.Engine, post, rule)
+		if res.Err != nil {
+			c.Rec.Comment("error: " + firstLine(res.Err.Error()))
+		}
+		c.recordEngine(line, res.Engine)
+		c.Stats.Inc("corrupt_blocks")
+		c.Stats.Inc("corrupt.wrong_pre_state_pre_advanced")
+		c.Stats.Inc("corrupt_rule." + rule)
+	}
+	ps, _ := pre.Slot()
+	for _, t := range []common.Slot{ps, ps.Previous()} {
+		if t == ps.Previous() && ps == 0 {
+			continue
+		}
+		res := RunSlots(c.Spec, pre, nil, t, -1)
+		post := res.Verdict()
+		if res.Post != nil {
+			post = c.Rec.State(res.Post)
+		}
+		c.Rec.Line("slots %s %d %s", hs.PreID, t, post)
+		c.Stats.Inc("slots_records_not_forward")
+		if t == ps {
+			c.Stats.Inc("slots_records_target_equals_current")
+		}
+	}
+	_ = base
 }
 
 // emitCorrupt finishes (state root, signature), runs and records one corrupted block.
